@@ -1328,9 +1328,11 @@ class BaseImage(metaclass=ImageMeta):
         duration = self._frame_duration
         image_it = ImageIterator(self, repeat, "", cached)
         image_it._animator = image_it._animate(img, alpha, fmt, style_args)
-        cursor_up = CURSOR_UP % (lines - 1)
+        # A parameter of zero is treated as one by terminal emulators
+        cursor_up = CURSOR_UP % (lines - 1) if lines > 1 else ""
         cursor_down = CURSOR_DOWN % lines
 
+        completed = False
         try:
             print(next(image_it._animator), end="", flush=True)  # First frame
 
